@@ -207,7 +207,7 @@ def popMin : T → Except Err (T × Int × Nat × Bool)
       match popMin l with
       | .error e => .error e
       | .ok (l', km, vm, s) =>
-        match delRetrace true l' km vm b r s with
+        match delRetrace true l' k v b r s with
         | .error e => .error e
         | .ok (t, s') => .ok (t, km, vm, s')
 
